@@ -157,7 +157,7 @@ impl PatProp for SizeFacts {
     }
 }
 
-fn lookbehind_products() -> Vec<Node> {
+pub fn lookbehind_products() -> Vec<Node> {
     fn bx(n: Node) -> Box<Node> {
         Box::new(n)
     }
